@@ -128,6 +128,7 @@ func (w *worker) process(line []byte) {
 		w.res.Samples = append(w.res.Samples, s)
 	}
 	w.fam = head.Fam
+	cfgCalls = 0
 	defer func() { w.prevLine = append([]byte(nil), inner...) }()
 	switch head.Fam {
 	case "sel":
